@@ -270,9 +270,118 @@ pub fn run(ctx: &mut Ctx) {
         }
     }
     c09::set_mode("allow-all");
+    // 4. a saturated server: the real accept loop (Server::run) with every worker held by an idle
+    //    connection, then more connections that send a valid request; whatever they are answered
+    //    - while the workers are held or after they are released - is a response like any other
+    std::env::set_current_dir(&root).unwrap();
+    ctx.bound("saturated_server", json!("Server::run on a loopback listener in a forked child; workers in {1,2} all held by idle connections; 1..3 further connections send GET /file.txt; every byte they receive is monitored"));
+    for workers in [1usize, 2] {
+        for extra in [1usize, 2, 3] {
+            let j = json!({"kind":"saturated","workers":workers,"extra":extra});
+            if !ctx.begin(j.to_string().as_bytes()) {
+                continue;
+            }
+            ctx.nontrivial();
+            let (class, fails) = check_saturated(workers, extra);
+            ctx.outcome(&format!("saturated:{}", class));
+            for (sig, detail) in fails {
+                ctx.fail(&sig, || j.clone(), detail);
+            }
+        }
+    }
     std::env::set_current_dir("/").unwrap();
     let _ = std::fs::remove_dir_all(&root);
     let _ = std::fs::remove_dir_all(&root500);
+}
+
+/// runs in a forked child; returns the bytes each further connection received (hex, JSON list)
+fn saturated_child(workers: usize, extra: usize) -> Vec<u8> {
+    use std::io::{Read, Write};
+    use std::net::{TcpListener, TcpStream};
+    use std::time::Duration;
+    let listener = match TcpListener::bind("127.0.0.1:0") {
+        Ok(l) => l,
+        Err(e) => return serde_json::to_vec(&json!({"error": format!("bind: {}", e)})).unwrap(),
+    };
+    let addr = listener.local_addr().unwrap();
+    std::thread::Builder::new()
+        .name("accept".into())
+        .spawn(move || {
+            let pool = crate::thread_pool::ThreadPool::new(workers);
+            crate::server::Server::run(listener, pool, <crate::app::App as crate::core::New>::new());
+        })
+        .unwrap();
+    let mut idle = Vec::new();
+    for _ in 0..workers {
+        if let Ok(s) = TcpStream::connect_timeout(&addr, Duration::from_secs(2)) {
+            idle.push(s);
+        }
+        std::thread::sleep(Duration::from_millis(20));
+    }
+    std::thread::sleep(Duration::from_millis(100));
+    let mut conns = Vec::new();
+    for _ in 0..extra {
+        if let Ok(mut s) = TcpStream::connect_timeout(&addr, Duration::from_secs(2)) {
+            let _ = s.write_all(b"GET /file.txt HTTP/1.1\r\nHost: localhost\r\n\r\n");
+            let _ = s.set_read_timeout(Some(Duration::from_millis(300)));
+            conns.push((s, Vec::new()));
+        }
+    }
+    // what arrives while every worker is held
+    for (s, got) in conns.iter_mut() {
+        let mut buf = [0u8; 65536];
+        loop {
+            match s.read(&mut buf) {
+                Ok(0) => break,
+                Ok(n) => got.extend_from_slice(&buf[..n]),
+                Err(_) => break,
+            }
+        }
+    }
+    let early: Vec<usize> = conns.iter().map(|(_, g)| g.len()).collect();
+    drop(idle); // the idle clients go away: their workers become free
+    for (s, got) in conns.iter_mut() {
+        let _ = s.set_read_timeout(Some(Duration::from_secs(5)));
+        let mut buf = [0u8; 65536];
+        loop {
+            match s.read(&mut buf) {
+                Ok(0) => break,
+                Ok(n) => got.extend_from_slice(&buf[..n]),
+                Err(_) => break,
+            }
+        }
+    }
+    serde_json::to_vec(&json!({"answers": conns.iter().map(|(_, g)| crate::engine::hex(g)).collect::<Vec<_>>(), "early": early})).unwrap()
+}
+
+pub fn check_saturated(workers: usize, extra: usize) -> (String, Vec<(String, String)>) {
+    let out = match crate::engine::fork_run(|| saturated_child(workers, extra)) {
+        Ok(o) => o,
+        Err(e) => return ("child-died".into(), vec![("C10:saturated:server-process-died".to_string(), e)]),
+    };
+    let v: Value = serde_json::from_slice(&out).unwrap_or(json!({"error": "unreadable"}));
+    if v.get("error").is_some() {
+        return ("env-error".into(), vec![]);
+    }
+    let mut fails = Vec::new();
+    let mut classes: Vec<String> = Vec::new();
+    for (i, a) in v["answers"].as_array().cloned().unwrap_or_default().iter().enumerate() {
+        let raw = crate::engine::unhex(a.as_str().unwrap_or(""));
+        if raw.is_empty() {
+            // not answered at all: C04 / C06's business, not this property's
+            classes.push("no-answer".into());
+            continue;
+        }
+        let st = status_of(&raw);
+        let when = if v["early"][i].as_u64().unwrap_or(0) > 0 { "while-all-workers-were-held" } else { "after-release" };
+        classes.push(format!("{}:{}", st, when));
+        for e in monitor(&raw) {
+            fails.push((format!("C10:saturated-server:{}:{}:{}", e, st, when), format!("connection {} of {} further ones, {} workers: {:?}", i, extra, workers, crate::engine::show(&raw[..raw.len().min(200)]))));
+        }
+    }
+    classes.sort();
+    classes.dedup();
+    (classes.join("+"), fails)
 }
 
 fn grid_case(ctx: &mut Ctx, g: Grid) {
@@ -291,11 +400,19 @@ fn grid_case(ctx: &mut Ctx, g: Grid) {
     }
 }
 
+pub fn replay_saturated(v: &Value) -> Vec<(String, String)> {
+    check_saturated(v["workers"].as_u64().unwrap_or(1) as usize, v["extra"].as_u64().unwrap_or(1) as usize).1
+}
+
 pub fn replay(v: &Value) -> Vec<Failure> {
     drive::default_config();
     let root = crate::tree::scratch_root("c10r");
     let fails: Vec<(String, String)>;
-    if v["kind"].as_str() == Some("grid") {
+    if v["kind"].as_str() == Some("saturated") {
+        corpus::tree().build(&root);
+        std::env::set_current_dir(&root).unwrap();
+        fails = replay_saturated(v);
+    } else if v["kind"].as_str() == Some("grid") {
         let g = Grid::from_json(v);
         if g.special == "root-500" {
             let _ = std::os::unix::fs::symlink("/proc/self/mem", root.join("index.html"));
